@@ -416,6 +416,9 @@ func hostFunc(f HostFn) func(args []object.Object) object.Object {
 				panic([]string{"slice"})
 			case 5:
 				panic(3.5)
+			case 6:
+				var nothing interface{}
+				panic(nothing) // panic(nil): with this module's go directive recover() then returns nil
 			}
 			panic("host function panic")
 		}
@@ -492,6 +495,9 @@ func RunImpl(c *Case) string {
 	}
 	if errText != "" {
 		sb.WriteString(" prep=err")
+		if has(c.Show, "errtext") {
+			sb.WriteString(" perr=" + hex.EncodeToString([]byte(errText)))
+		}
 		if has(c.Show, "tokens") {
 			sb.WriteString(" tokens=" + implTokens(c.Script))
 		}
